@@ -28,7 +28,7 @@ WITH_EXTRAS = ('gen', 'gre', 'mincost', 'minsqcost', 'mincostlsb')
 
 def plan(tier):
     return {'cases_per_shard': 900 if tier == 'quick' else 18000,
-            'time_cap_s': 45 if tier == 'quick' else 560}
+            'time_cap_s': 90 if tier == 'quick' else 560}
 
 
 def draw_positions(rng):
